@@ -1,7 +1,7 @@
 /-
 C10 — property theorems (statements fixed by the architect; do not weaken).  PARTIAL: only the discrete /
 algebraic skeleton is decided here (see the header of Model/Crop.lean).  `Gen.Crop.extrapolates` is GENERATED;
-it may be evaluated ONLY in `cubic_extrapolates` (by `rfl`).
+it may be evaluated ONLY in `cubic_extrapolates` (by `rfl`); `Gen.Crop.polyDegrees` ONLY in `cfg_fit_degree` (by `decide`).
 Helper lemmas: PeroVerif/Lemmas/Crop.lean (may import single Mathlib modules, e.g. Mathlib.Data.Rat.Floor,
 Mathlib.Tactic.Linarith, Mathlib.Tactic.Ring, Mathlib.Tactic.FieldSimp).
 -/
@@ -13,6 +13,15 @@ open Crop
 
 /-- obligation on the generated flag -/
 theorem cubic_extrapolates : Gen.Crop.extrapolates = true := rfl
+
+/-- obligation on the generated table: for every probed (INTERP, number of points) the source calls `np.polyfit` with `fitDegree` -/
+theorem cfg_fit_degree : ∀ e ∈ Gen.Crop.polyDegrees, e.2.2 = fitDegree e.1 e.2.1 := by decide
+
+/-- … and that degree is always determined by the points (fewer coefficients than points + 1): no under-determined fit, whose
+minimum-norm solution would depend on the absolute position of the line (the shift defect fixed in decbd4e). -/
+theorem fit_determined (poly n : Nat) (hp : 0 < poly) (hn : 2 ≤ n) : fitDegree poly n < n ∧ 1 ≤ fitDegree poly n := by
+  unfold fitDegree
+  split <;> omega
 
 /-- Rows run linearly from the ascender height above the baseline (first row) to the descender height
 below it (last row): `linspace` has `n` entries, starts at `a`, ends at `b`, constant step. -/
